@@ -293,6 +293,25 @@ func CheckC11(e *Env) int {
 	// every order in which one consumer can ask for the interface(s), the concrete type and the
 	// concrete type's own input
 	legal = append(legal, bindOrderFamily("bo", e.Seed, e.tierN(4, 1))...)
+	// how the two arguments of Bind are spelled does not matter, only their types do: two
+	// thirds of the programs (legal and illegal) use typed nil pointers instead of new(...)
+	respell := func(k int, p *Program) {
+		sp := []string{"", "typed-nil-second", "typed-nil-both"}[k%3]
+		for _, it := range p.Items {
+			if it.Kind == KBind {
+				it.Spelling = sp
+			}
+		}
+		if sp != "" {
+			p.Feat["bind-spelling"] = sp
+		}
+	}
+	for k, p := range legal {
+		respell(k, p)
+	}
+	for k, rc := range cases {
+		respell(k+1, rc.P)
+	}
 	results := RunPool(e, legal, PoolOpts{Execute: true, Name: "c11"})
 	for _, pr := range results {
 		EvalAccepted(pr)
